@@ -1321,6 +1321,8 @@ pub(crate) mod copy_slice_impl {
     // - `src_addr` must point to a properly initialized value, which is true here because
     //   we're only using integer primitives.
     unsafe fn copy_single(align: usize, src_addr: *const u8, dst_addr: *mut u8) {
+        #[cfg(vm_memory_verif)]
+        crate::verif_hooks::copy_access(align, src_addr as usize, dst_addr as usize, align);
         match align {
             8 => write_volatile(dst_addr as *mut u64, read_volatile(src_addr as *const u64)),
             4 => write_volatile(dst_addr as *mut u32, read_volatile(src_addr as *const u32)),
@@ -1398,6 +1400,8 @@ pub(crate) mod copy_slice_impl {
             //   invariant
             // - src and dst are properly aligned, as any alignment is valid for u8
             // - The regions are not overlapping by function invariant
+            #[cfg(vm_memory_verif)]
+            crate::verif_hooks::copy_access(0, src as usize, dst as usize, total);
             unsafe {
                 std::ptr::copy_nonoverlapping(src, dst, total);
             }
